@@ -187,8 +187,6 @@ func VerifRunEncScript(toks []string) VerifEnc {
 // VerifRunDecScript executes a `dec` token list on the real decoder (recorded).
 func VerifRunDecScript(buf []byte, toks []string) VerifDec {
 	return verifDecodeTraced(buf, func(pd packetDecoder) error {
-		var stackLen []*lengthField
-		_ = stackLen
 		for _, t := range toks {
 			k, v := t, ""
 			if i := strings.IndexByte(t, ':'); i >= 0 {
